@@ -862,7 +862,7 @@ def run(tier, seed):
     chk.proof = C.check_proofs("C12", THEOREMS, tier)
 
     rng = chk.rng
-    ncases = 2500 if tier == "thorough" else 400
+    ncases = 8000 if tier == "thorough" else 400
     cases = []
     for i in range(ncases):
         cases.append(gen_case(rng, "consistent" if rng.random() < 0.7 else "wild"))
